@@ -262,6 +262,11 @@ struct Chk
             p = e + 1;
         }
     }
+    void note(const std::string& what)
+    {
+        if(first_fail.empty())
+            first_fail = what;
+    }
     void point(const std::string& label)
     {
         points++;
